@@ -314,6 +314,10 @@ class CMapParser(PSStackParser[PSKeyword]):
     KEYWORD_ENDCODESPACERANGE = KWD(b"endcodespacerange")
     KEYWORD_BEGINCIDRANGE = KWD(b"begincidrange")
     KEYWORD_ENDCIDRANGE = KWD(b"endcidrange")
+    # A range maps consecutive codes to consecutive CIDs or characters; CIDs do
+    # not exceed 65535, so no meaningful range is longer than this.
+    MAX_RANGE = 65536
+
     KEYWORD_BEGINCIDCHAR = KWD(b"begincidchar")
     KEYWORD_ENDCIDCHAR = KWD(b"endcidchar")
     KEYWORD_BEGINBFRANGE = KWD(b"beginbfrange")
@@ -408,7 +412,7 @@ class CMapParser(PSStackParser[PSKeyword]):
                 start = nunpack(svar)
                 end = nunpack(evar)
                 vlen = len(svar)
-                for i in range(end - start + 1):
+                for i in range(min(end - start + 1, self.MAX_RANGE)):
                     x = start_prefix + struct.pack(">L", start + i)[-vlen:]
                     self.cmap.add_cid2unichr(cid + i, x)
             return
@@ -456,8 +460,8 @@ class CMapParser(PSStackParser[PSKeyword]):
                     base = nunpack(var)
                     prefix = code[:-4]
                     vlen = len(var)
-                    for i in range(end - start + 1):
-                        x = prefix + struct.pack(">L", base + i)[-vlen:]
+                    for i in range(min(end - start + 1, self.MAX_RANGE)):
+                        x = prefix + struct.pack(">L", (base + i) & 0xFFFFFFFF)[-vlen:]
                         self.cmap.add_cid2unichr(start + i, x)
             return
 
